@@ -1,5 +1,10 @@
 """C11 Actor lifecycle semantics: see DESIGN.md section 4 (C11), checks/kernel_sync.py. Programs combine create, on_exit callbacks,
-join with and without timeout, kill, kill_all, daemonize, set_kill_time with sleeps, executions and semaphore waits."""
+join with and without timeout, kill, kill_all, daemonize, set_kill_time with sleeps, executions and semaphore waits; a second family
+(K.gen_susp_prog) has actors suspend and resume each other or themselves while they sleep, join, or wait on semaphores and mutexes.
+
+Found by this check and repaired (fix: resuming an actor whose simcall is not handled yet ...): an actor suspended and resumed in the
+scheduling round in which it issued a simcall was run before that simcall was answered (its sleep / join / lock returned at once);
+an actor answered and resumed in the same round ran twice."""
 import kernel_sync
 import kernel_common as K
 from kernel_common import op, new_prog
@@ -8,8 +13,10 @@ META = {"text": "TLC explores SgKernel on lifecycle programs (invariant Lifecycl
                 "registration order whatever the cause of death, nobody stays joined on a dead actor, daemons do not outlive the last "
                 "regular actor) and validates the traces of the real kernel: each on_exit line must be the next callback in reverse "
                 "order, join returns exactly at min(end of target, t0+t), a kill time fires exactly at its date, killed actors "
-                "observe nothing further.",
-        "note": "Trusted: TLC, hook H1, driver kdrv. suspend/resume and auto-restart after reboot are not generated yet; the value of "
+                "observe nothing further, a suspended actor observes nothing (no operation returns, no callback runs) until it is resumed "
+                "or killed (action property SuspendedNoProgress in the exploration; guard of the ret line in trace validation).",
+        "note": "Trusted: TLC, hook H1, driver kdrv. auto-restart after reboot is not generated; suspension of an actor that takes part in "
+                "a communication or an execution is left undefined by the specification (not examined); the value of "
                 "the failed flag is only checked for normal termination (false). Outcome sets are not compared (a kill can land between "
                 "an answer and its observation); conformance is by trace validation.",
         "technique": "TLC model checking of SgKernel + TLC trace validation of real runs (kdrv, hook H1)"}
@@ -23,11 +30,21 @@ EXTRA = [
     # kill of an actor created in the same round (it never runs): used to hang and end on a bogus deadlock report
     new_prog(actors=[[op("onexit", 11), op("create", 3), op("sleep", 0, 0, 5)], [op("sleep", 0, 0, 2)], [op("join", 1, 0, 1)],
                      [op("yield"), op("killall"), op("onexit", 41)]], spawn=[False, False, True, False]),
+    # suspend + resume of an actor in the very round in which it issues its sleep: it used to return from the sleep at once
+    new_prog(actors=[[op("yield"), op("suspend", 3)], [op("yield"), op("resume", 3)], [op("yield"), op("sleep", 0, 0, 5), op("onexit", 31)]]),
+    # a suspended actor answered (semaphore) and resumed in the same round used to be scheduled twice
+    new_prog(cap=[0], actors=[[op("suspend", 3), op("rel", 1)], [op("yield"), op("resume", 3)], [op("acq", 1), op("sleep", 0, 0, 3), op("onexit", 31)]]),
+    # the sleep ends while its actor is suspended; self-suspension; a joiner suspended when its target dies
+    new_prog(actors=[[op("suspend", 2), op("sleep", 0, 0, 4), op("resume", 2), op("resume", 3)], [op("sleep", 0, 0, 2), op("sleep", 0, 0, 1)],
+                     [op("suspend", 3), op("join", 1, 0, -1)]]),
+    new_prog(actors=[[op("sleep", 0, 0, 2)], [op("join", 1, 0, 5), op("onexit", 21)], [op("suspend", 2), op("sleep", 0, 0, 3), op("resume", 2)]]),
 ]
 
 
 def run(ctx):
-    kernel_sync.run(ctx, "life", 200, 1000, extra=EXTRA, compare_outcomes=False,
-                    nontrivial=lambda p: any(o["op"] in ("kill", "killall", "join", "create", "killtime", "daemon") for a in p["actors"] for o in a),
-                    rule_note="the program kills, joins, creates, daemonizes or sets a kill time",
-                    gen=lambda rng, quick: K.gen_life_prog(rng, max_actors=4, max_ops=5 if quick else 6))
+    kernel_sync.run(ctx, "life", 300, 3000, extra=EXTRA, compare_outcomes=False,
+                    nontrivial=lambda p: any(o["op"] in ("kill", "killall", "join", "create", "killtime", "daemon", "suspend")
+                                             for a in p["actors"] for o in a),
+                    rule_note="the program kills, joins, creates, daemonizes, suspends or sets a kill time",
+                    gen=lambda rng, quick: (K.gen_susp_prog(rng, max_actors=4, max_ops=5 if quick else 6) if rng.random() < 0.4
+                                            else K.gen_life_prog(rng, max_actors=4, max_ops=5 if quick else 6)))
